@@ -147,6 +147,10 @@ func NewWorld(cfg Config, filters []model.FilterSpec, obs []model.ObsSpec, slots
 		exch:     map[string]api.Exchanger{},
 		events:   eventTypes,
 	}
+	// custom event types come from an EventRegistry
+	var reg ecs.EventRegistry
+	x.events[model.EvCustom] = reg.NewEventType()
+	x.events[model.EvCustom2] = reg.NewEventType()
 	x.Env.Mode = cfg.RelMode
 	api.RegisterDummies(w, cfg.Offset)
 	for _, c := range cfg.Universe {
@@ -585,7 +589,7 @@ func (x *World) run(op *model.Op, res *model.Result) *Violation {
 	case model.OpRemove:
 		h := x.H[op.E]
 		if op.Path == model.PathExchange {
-			x.exchanger(op.Path, nil, rmTuple(op)).Remove(h)
+			x.exchanger(op.Path, exAddTuple(op), rmTuple(op)).Remove(h)
 			return nil
 		}
 		x.mapper(op.Path, rmTuple(op)).Remove(h)
@@ -834,7 +838,7 @@ func (x *World) runBatch(op *model.Op, res *model.Result) *Violation {
 			fn = cbEnt
 		}
 		if op.Path == model.PathExchange {
-			x.exchanger(op.Path, nil, rmTuple(op)).RemoveBatch(batch, fn)
+			x.exchanger(op.Path, exAddTuple(op), rmTuple(op)).RemoveBatch(batch, fn)
 		} else {
 			x.mapper(op.Path, rmTuple(op)).RemoveBatch(batch, fn)
 		}
@@ -1039,6 +1043,15 @@ func (x *World) NextPad(mode int) int {
 }
 
 // rmTuple: the ordered tuple for a removal (explicit order if the op gives one for exactly Rm).
+// exAddTuple: for removals through ExchangeN the type parameters (which the removal ignores) select the
+// arity under test: Op.Ord, if it is given and is not the removed tuple itself.
+func exAddTuple(op *model.Op) []ct.Comp {
+	if op.Ord != nil && ct.Of(op.Ord...) != op.Rm {
+		return op.Ord
+	}
+	return nil
+}
+
 func rmTuple(op *model.Op) []ct.Comp {
 	if op.Ord != nil && ct.Of(op.Ord...) == op.Rm {
 		return op.Ord
